@@ -287,6 +287,90 @@ Proof.
       * intros n Hn. apply D1; apply Hn; now left.
 Qed.
 
+(* ---- the specification shared by the sequential loop and the chunked parallel one ---- *)
+Definition dl_spec (s : state) (ms : list req) (s' : state) (bs : list bool) (st : dl_status) : Prop :=
+  W s' /\ entries s' = entries s /\ maxb s' = maxb s /\ alive s' = alive s /\ clock s <= clock s' /\
+  (forall n, is_cache_name n = true -> dexists (disk s') n = true ->
+             dexists (disk s) n = true \/
+             exists q, In q ms /\ q_name q = n /\ (st = DlOk -> In (q, true) (combine ms bs))) /\
+  (forall n, is_cache_name n = true -> dexists (disk s) n = true -> dexists (disk s') n = true) /\
+  (st = DlOk -> forall q b, In (q, b) (combine ms bs) -> b = true -> dexists (disk s') (q_name q) = true) /\
+  (forall n, (forall q, In q ms -> n <> q_name q /\ n <> q_tmp q) -> dfind (disk s') n = dfind (disk s) n) /\
+  (st = DlOk -> length bs = length ms).
+
+Lemma download_spec s ms s' bs st : W s -> download s ms = (s', bs, st) -> dl_spec s ms s' bs st.
+Proof.
+  intros HW H. destruct (download_props _ _ _ _ _ HW H) as [W2 [E2 [M2 [A2 [C2 [F2 [K2 [R2 [D2 L2]]]]]]]]].
+  unfold dl_spec. splits; try assumption.
+  - intros n Hc He. destruct (F2 n Hc He) as [Hx|[q [Hq Hn]]]; [left; assumption|].
+    right. exists q. split; [now apply in_combine_l in Hq|]. split; [assumption | intros _; assumption].
+  - intros _. exact R2.
+Qed.
+
+Lemma combine_app_eq {A B} (l1 l2 : list A) (b1 b2 : list B) :
+  length b1 = length l1 -> combine (l1 ++ l2) (b1 ++ b2) = combine l1 b1 ++ combine l2 b2.
+Proof.
+  revert b1. induction l1 as [|x l1 IH]; intros [|y b1] H; cbn in *; try discriminate; [reflexivity|].
+  f_equal. apply IH. lia.
+Qed.
+
+Lemma merge_ok a b : merge_status a b = DlOk -> a = DlOk /\ b = DlOk.
+Proof. destruct a, b; cbn; intros H; try discriminate; split; reflexivity. Qed.
+
+Lemma download_chunks_spec cs : forall s s' bs st,
+  W s -> download_chunks s cs = (s', bs, st) -> dl_spec s (concat cs) s' bs st.
+Proof.
+  induction cs as [|c cs IH]; intros s s' bs st HW H; cbn [download_chunks concat] in *.
+  - injection H as <- <- <-. unfold dl_spec. splits; try assumption; try reflexivity; try lia.
+    + intros n _ He. now left.
+    + intros n _ He. exact He.
+    + intros _ q b [].
+  - destruct (download s c) as [[s1 bs1] st1] eqn:E1.
+    destruct (download_chunks s1 cs) as [[s2 bs2] st2] eqn:E2. injection H as <- <- <-.
+    destruct (download_spec _ _ _ _ _ HW E1) as [W1 [En1 [M1 [A1 [C1 [F1 [K1 [R1 [D1 L1]]]]]]]]].
+    destruct (IH _ _ _ _ W1 E2) as [W2 [En2 [M2 [A2 [C2 [F2 [K2 [R2 [D2 L2]]]]]]]]].
+    unfold dl_spec. splits; try assumption; try congruence; try lia.
+    + intros n Hc He. destruct (F2 n Hc He) as [Hx|[q [Hq [Hn Hok]]]].
+      * destruct (F1 n Hc Hx) as [Hy|[q [Hq [Hn Hok]]]]; [left; assumption|].
+        right. exists q. split; [apply in_or_app; now left|]. split; [assumption|].
+        intros Hm. apply merge_ok in Hm. destruct Hm as [-> ->].
+        rewrite combine_app_eq by now apply L1. apply in_or_app. left. now apply Hok.
+      * right. exists q. split; [apply in_or_app; now right|]. split; [assumption|].
+        intros Hm. apply merge_ok in Hm. destruct Hm as [-> ->].
+        rewrite combine_app_eq by now apply L1. apply in_or_app. right. now apply Hok.
+    + intros n Hc He. apply K2; [assumption|]. now apply K1.
+    + intros Hm q b Hin Hb. apply merge_ok in Hm. destruct Hm as [-> ->].
+      rewrite combine_app_eq in Hin by now apply L1. apply in_app_or in Hin. destruct Hin as [Hin|Hin].
+      * apply K2; [reflexivity|]. now apply (R1 eq_refl q b).
+      * now apply (R2 eq_refl q b).
+    + intros n Hn. rewrite D2 by (intros q Hq; apply Hn; apply in_or_app; now right).
+      apply D1. intros q Hq. apply Hn. apply in_or_app. now left.
+    + intros Hm. apply merge_ok in Hm. destruct Hm as [-> ->]. rewrite !app_length, L1, L2 by reflexivity. reflexivity.
+Qed.
+
+Lemma concat_chunks_of fuel : forall l, (length l <= fuel)%nat -> concat (chunks_of fuel l) = l.
+Proof.
+  induction fuel as [|fuel IH]; intros l H; cbn [chunks_of].
+  - destruct l; [reflexivity | cbn in H; lia].
+  - destruct l as [|x l']; [reflexivity|]. cbn [concat]. rewrite IH.
+    + apply firstn_skipn.
+    + rewrite skipn_length. unfold CHUNK. cbn [length] in *. lia.
+Qed.
+
+Lemma download_all_spec s ms s' bs st : W s -> download_all s ms = (s', bs, st) -> dl_spec s ms s' bs st.
+Proof.
+  intros HW H. unfold download_all in H. destruct (par s && Nat.ltb 1 (length ms)).
+  - pose proof (download_chunks_spec _ _ _ _ _ HW H) as Hs.
+    rewrite (concat_chunks_of (length ms) ms) in Hs by lia. exact Hs.
+  - now apply download_spec.
+Qed.
+
+Lemma download_all_nil s : download_all s [] = (s, [], DlOk).
+Proof. unfold download_all. cbn [length Nat.ltb Nat.leb]. rewrite andb_false_r. reflexivity. Qed.
+
+Lemma download_all_single s q : download_all s [q] = download s [q].
+Proof. unfold download_all. cbn [length Nat.ltb Nat.leb]. rewrite andb_false_r. reflexivity. Qed.
+
 (* ------------------------------------------------------------------ *)
 (* registration                                                         *)
 (* ------------------------------------------------------------------ *)
@@ -360,15 +444,16 @@ Proof.
   intros [HW HS] Hal. destruct (HS Hal) as [Hcov Hsz]. unfold get.
   destruct (classify s l) as [[s1 ms]|] eqn:Ec; [|split; assumption].
   destruct (classify_props _ _ _ _ HW Ec) as [W1 [Cov1 [Sz1 [Mx1 [Al1 [Ck1 [Inc1 [Sub1 Mis1]]]]]]]].
-  destruct (download s1 ms) as [[s2 bs] st] eqn:Ed.
-  destruct (download_props _ _ _ _ _ W1 Ed) as [W2 [E2 [M2 [A2 [C2 [F2 [K2 [R2 [D2 L2]]]]]]]]].
+  destruct (download_all s1 ms) as [[s2 bs] st] eqn:Ed.
+  destruct (download_all_spec _ _ _ _ _ W1 Ed) as [W2 [E2 [M2 [A2 [C2 [F2 [K2 [R2 [D2 L2]]]]]]]]].
   destruct st.
   - (* all downloads returned *)
     destruct (register s2 (map q_name l) ms bs) as [s3 paths'] eqn:Er.
-    destruct (register_props _ _ _ _ _ _ W2 Er R2) as [W3 [D3 [M3 [A3 [C3 [E3 I3]]]]]].
+    destruct (register_props _ _ _ _ _ _ W2 Er (R2 eq_refl)) as [W3 [D3 [M3 [A3 [C3 [E3 I3]]]]]].
     assert (Cov3 : covered s3).
-    { intros n Hc He. rewrite D3 in He. apply E3. destruct (F2 n Hc He) as [Hx|Hx]; [|right; assumption].
-      left. rewrite E2. now apply (Cov1 Hcov). }
+    { intros n Hc He. rewrite D3 in He. apply E3. destruct (F2 n Hc He) as [Hx|[q [Hq [Hn Hok]]]].
+      - left. rewrite E2. now apply (Cov1 Hcov).
+      - right. exists q. split; [now apply Hok | assumption]. }
     set (s4 := if total_size (disk s3) paths' >? maxb s3 then set_maxb s3 (total_size (disk s3) paths' + MEGABYTE) else s3).
     assert (W4 : W s4).
     { unfold s4. destruct (_ >? _); [|assumption]. apply W_set_maxb; [assumption|].
@@ -378,7 +463,7 @@ Proof.
     { unfold s4. destruct (Z.gtb_spec (total_size (disk s3) paths') (maxb s3)); cbn; unfold MEGABYTE; lia. }
     cbn [fst]. destruct ms as [|q0 ms0].
     + (* only hits: nothing downloaded, nothing evicted *)
-      cbn in Ed. injection Ed as <- <- . cbn in Er. injection Er as <- <-.
+      rewrite download_all_nil in Ed. injection Ed as <- <- . cbn in Er. injection Er as <- <-.
       split; [assumption|]. intros _. split; [assumption|].
       assert (cache_size s4 = cache_size s1) as -> by (unfold s4; destruct (_ >? _); reflexivity). lia.
     + apply evict_Inv; assumption.
@@ -386,9 +471,9 @@ Proof.
     cbn [fst]. destruct (register_existing_props ms s2 W2) as [W3 [D3 [M3 [A3 E3]]]].
     apply evict_Inv; [assumption|].
     intros n Hc He. rewrite D3 in He. apply E3.
-    destruct (F2 n Hc He) as [Hx|[q [Hq Hn]]].
+    destruct (F2 n Hc He) as [Hx|[q [Hq [Hn _]]]].
     + left. rewrite E2. now apply (Cov1 Hcov).
-    + right. exists q. split; [now apply in_combine_l in Hq | split; assumption].
+    + right. exists q. split; [assumption | split; assumption].
   - (* the process died *)
     cbn [fst]. split; [now apply W_set_alive|]. intros Hx. cbn in Hx. discriminate.
 Qed.
